@@ -340,6 +340,9 @@ structure LoadFacts where
   fetchZero : FetchMode
   defaultIntervalNs : Int
   defaultCacheNs : Int
+  /-- parseUpdateInterval / parseDefaultCacheDuration return an error for a parsed duration ≤ 0 -/
+  intervalMustBePositive : Bool
+  cacheMustBePositive : Bool
   /-- literal assigned when `CDPConfig == nil` -/
   nilCdpDefault : EffCdp
   /-- `DefaultCacheDurationParsed` / strict flag of the literal assigned when `OCSPConfig == nil` -/
@@ -357,10 +360,10 @@ structure LoadFacts where
 section Load
 variable (L : LoadFacts) (env : Env)
 
-def parseDurationField (s : String) (dflt : Int) : Res Int :=
+def parseDurationField (s : String) (dflt : Int) (mustBePositive : Bool) : Res Int :=
   if s.length > 0 then
     match env.dur s with
-    | some d => .ok d
+    | some d => if mustBePositive && decide (d ≤ 0) then .error else .ok d
     | none => .error
   else .ok dflt
 
@@ -371,7 +374,7 @@ def optRes {α : Type} : Option α → Res α
 def crlStep (raw : RawCrl) (e : EffCrl) : CrlStep → Res EffCrl
   | .sigMode => (optRes (L.parseSigMode raw.sigMode)).map (fun m => { e with sigMode := m })
   | .storage => (optRes (L.parseStorage raw.storage)).map (fun m => { e with storage := m })
-  | .interval => (parseDurationField env raw.interval L.defaultIntervalNs).map (fun d => { e with intervalNs := d })
+  | .interval => (parseDurationField env raw.interval L.defaultIntervalNs L.intervalMustBePositive).map (fun d => { e with intervalNs := d })
   | .signers => if raw.signers.all env.certOk then .ok e else .error
   | .cdp =>
     match raw.cdp with
@@ -396,7 +399,7 @@ def crlUnparsed (raw : RawCrl) : EffCrl :=
 def parseCrl (raw : RawCrl) : Res EffCrl := runCrlSteps L env raw L.crlSteps (crlUnparsed L raw)
 
 def ocspStep (raw : RawOcsp) (e : EffOcsp) : OcspStep → Res EffOcsp
-  | .cacheDuration => (parseDurationField env raw.cacheDuration L.defaultCacheNs).map (fun d => { e with cacheNs := d })
+  | .cacheDuration => (parseDurationField env raw.cacheDuration L.defaultCacheNs L.cacheMustBePositive).map (fun d => { e with cacheNs := d })
   | .responders => if raw.responders.all env.certOk then .ok e else .error
 
 def runOcspSteps (raw : RawOcsp) : List OcspStep → EffOcsp → Res EffOcsp
